@@ -216,6 +216,8 @@ class Analysis:
                 return Analysis.id(index, node)
         if isinstance(node, pr.UnaryOp):
             return Analysis.unary_op(index, node)
+        if isinstance(node, pr.ExprList):  # e1, e2, ...: evaluated in order
+            return Analysis.compound(index, pr.Compound(node.exprs), dg)
         if isinstance(node, pr.Label):  # a label is only a marker
             return Analysis.compute_relation(index, node.stmt, dg)
         if isinstance(node, pr.If):
